@@ -238,7 +238,7 @@ TABLE = [
      'resolve() leaves a reference with a scheme (has-scheme typestate)'),
     (r'^(uri|iri)::(reference::)?(Uri|UriRef|Iri|IriRef)::base$', r'(from_utf8_unchecked|::new_unchecked)$', 'LEMMA', 'C16',
      'prefix of self ending at the path start or after a "/" of the path: prefix-closure lemma of C16'),
-    (r'^uri::scheme::data::DataUrl::new$', r'DataUrl::new_unchecked$', 'TABLE', 'C18', 'after Uri::new and DataUrlDelimiters::parse succeeded'),
+    (r'^uri::scheme::data::DataUrl::new(::\{closure#\d+\})?$', r'DataUrl::new_unchecked$', 'TABLE', 'C18', 'Ok only for a valid URI of the documented shape: decided by the constructor obligations of C18 (Engine S)'),
     (r'^uri::scheme::data::DataUrlBuf::as_data_url$', r'DataUrl::new_unchecked$', 'TABLE', 'C18', 'same text, built only by the checked constructor'),
     (r'^uri::scheme::data::DataUrlBuf::from_string::\{closure#0\}$', r'String::from_utf8_unchecked$', 'TABLE', 'C18',
      'bytes handed back by DataUrlBuf::new are the input String\'s bytes'),
